@@ -305,7 +305,8 @@ class G:
             self.err("switch-unsuitable-field", w + " field=" + str(sw.field))
             return
         kind, ins, r = scope[sw.field]
-        bad = kind != "field" or r[0] not in ("int", "enum")
+        # a required <length> is as good a switch field as an integer field: the case is chosen by the count itself
+        bad = not (kind == "field" or (kind == "length" and not ins.optional)) or r[0] not in ("int", "enum")
         opt_after, dummy_after = st["opt"], st["dummy"]
         for i, c in enumerate(sw.cases):
             cw = "%s/case%d" % (w, i)
